@@ -3,7 +3,7 @@ from __future__ import annotations
 
 import z3
 
-from .common import And, Or, _s, assume_strict, build, get_delim, longest_match, mk_recs, no_match, substr_from, sym_eq
+from .common import And, Or, _s, assume_strict, build, get_delim, longest_match, mk_recs, no_match, substr_from, sym_eq, wide_recs
 
 EXPLANATION = (
     "Converter.__init__/_index/add_record/parse_uri/compress/is_uri/format_curie are executed on symbolic records "
@@ -13,7 +13,7 @@ EXPLANATION = (
     "the owner of the longest matching URI prefix ++ delimiter ++ u[len(prefix):]. Because record contents are "
     "symbolic, one shape covers every overlap lattice and every permutation of a concrete record list; incremental "
     "jobs additionally build the same converter through add_record from every split point, 'interleaved' jobs also query the converter between the additions, the 'chained' job queries a converter after it has been an input of chain().")
-BOUNDS = dict(records="<= 5 (quick <= 3)", uri_prefix_synonyms_per_record="<= 2", strings="unbounded length, full z3 alphabet",
+BOUNDS = dict(records="<= 5 symbolic (quick <= 3); thorough also 1 symbolic among 12 fixed ones", uri_prefix_synonyms_per_record="<= 2", strings="unbounded length, full z3 alphabet",
               delimiter="':' and an arbitrary non-empty symbolic string")
 OUTSIDE = ["more than 5 records or more than 2 URI-prefix synonyms per record", "non-strict converters",
            "the pytrie implementation itself (modelled by its longest-prefix contract)"]
@@ -25,9 +25,9 @@ ASSUMPTIONS = ["pytrie.StringTrie.longest_prefix_item returns the longest stored
 def jobs(tier):
     out = []
 
-    def J(fn, shape, symdelim=False, budget=300, shard=None):
-        name = f"{fn}:{shape}:{'symdelim' if symdelim else 'colon'}"
-        out.append(dict(name=name, fn=fn, params=dict(shape=shape, symdelim=symdelim), budget_s=budget,
+    def J(fn, shape, symdelim=False, budget=300, shard=None, wide=0):
+        name = f"{fn}:{shape}:{'symdelim' if symdelim else 'colon'}" + (f":wide={wide}" if wide else "")
+        out.append(dict(name=name, fn=fn, params=dict(shape=shape, symdelim=symdelim, wide=wide), budget_s=budget,
                         shard_depth=shard, group=fn, expect_outcomes=["none", "some"]))
     quick = [("construct", [[0, 0]], True), ("construct", [[0, 1], [0, 1]], False), ("construct", [[1, 1], [1, 1]], True),
              ("construct", [[0, 0], [0, 0], [0, 0]], False),
@@ -37,6 +37,7 @@ def jobs(tier):
     for fn, sh, sd in quick:
         J(fn, sh, sd)
     if tier == "thorough":
+        J("construct", [[0, 1]], False, 1200, wide=12)        # one symbolic record among 12 fixed ones
         J("construct", [[0, 1], [0, 1], [0, 1]], False, 1500, shard=8)
         J("construct", [[1, 2], [1, 1]], True, 900, shard=6)
         J("construct", [[0, 2], [0, 0], [0, 0]], False, 1500, shard=8)
@@ -58,7 +59,7 @@ def build(job):  # noqa: F811 - harness entry point (shadows common.build delibe
 
     def run(eng):
         api = eng.mods.api
-        recs = mk_recs(eng, params["shape"])
+        recs = wide_recs(params.get("wide", 0)) + mk_recs(eng, params["shape"])
         assume_strict(eng, recs)
         delim = get_delim(eng, params["symdelim"], recs, no_delim_in_prefixes=False)
         u = eng.var("uri")
